@@ -119,7 +119,7 @@ impl Monitor for C05 {
                     }
                 }
                 (Op::Truncate { q, pos }, crate::ops::Outcome::Truncated { .. }) => {
-                    if model.queues.get(q).map(|m| m.recs.is_empty() && m.next == pos + 1).unwrap_or(false) {
+                    if model.queues.get(q).map(|m| m.recs.is_empty() && m.next == pos.saturating_add(1)).unwrap_or(false) {
                         acc.count("truncate_into_future");
                     }
                 }
@@ -206,7 +206,7 @@ impl Monitor for C05 {
                     }
                     cands.push(mq.recs[rng.below(mq.recs.len() as u64) as usize].0);
                 } else {
-                    cands.extend([0, mq.next.saturating_sub(1), mq.next, mq.next + 1]);
+                    cands.extend([0, mq.next.saturating_sub(1), mq.next, mq.next.saturating_add(1)]);
                 }
                 cands.push(0);
                 cands.push(u64::MAX - 1);
